@@ -31,6 +31,10 @@ var toggleAlphabet = []string{"ban", "unban", "use"}
 var restartAlphabet = []string{"ban", "unban", "use", "restart", "crash"}
 var peerAlphabet = []string{"ban", "unban", "sync", "useB2"}
 
+// peerFullAlphabet: the second broker learns through the periodic full-state exchange (one payload carrying the
+// whole entry, i.e. possibly a newer add time and a newer remove time at once) instead of the single broadcasts
+var peerFullAlphabet = []string{"ban", "unban", "syncfull", "useB2"}
+
 // capture records what the broker would broadcast.
 type capture struct{ payloads []mesh.GossipData }
 
@@ -99,7 +103,14 @@ func newInst(w *wenv, ops []string) *inst {
 	in := &inst{wenv: w, ops: ops}
 	w.cap.payloads = nil
 	// a fresh key per path (different channel target each time, so the strings differ)
-	in.key = w.b1.MustKey(fmt.Sprintf("k%d/", w.paths), security.AllowRead|security.AllowWrite|security.AllowLoad|security.AllowPresence)
+	// ... and one whose text contains '-', so that it has another spelling in the standard base64 alphabet
+	for try := 0; ; try++ {
+		in.key = w.b1.MustKey(fmt.Sprintf("k%d/", w.paths), security.AllowRead|security.AllowWrite|security.AllowLoad|security.AllowPresence)
+		if strings.Contains(in.key, "-") || try > 64 {
+			break
+		}
+		w.paths++
+	}
 	return in
 }
 
@@ -219,6 +230,19 @@ func tryUseAll(c *session.Client, key string, ch string) (accepted bool, ok bool
 	return yes > 0, true, ""
 }
 
+// respelled: a banned key must stay refused however its text is written. The only other spelling a lenient decoder
+// could take for the same key is the standard base64 alphabet ('+' for '-'); an invalid string is refused anyway.
+func (in *inst) respelled(c *session.Client, sig string) {
+	if !strings.Contains(in.key, "-") {
+		return
+	}
+	alias := strings.ReplaceAll(in.key, "-", "+")
+	acc, ok, mixed := tryUseAll(c, alias, fmt.Sprintf("k%d/", in.paths))
+	if ok && (acc || mixed != "") {
+		in.fail(sig, fmt.Sprintf("the banned key %s is accepted when written as %s (%s)", in.key, alias, mixed))
+	}
+}
+
 func (in *inst) banRequest(b bool) {
 	resp, ok := in.client().Request("keyban", map[string]interface{}{"secret": in.b1.Master, "target": in.key, "banned": b})
 	var r struct {
@@ -255,6 +279,8 @@ func (in *inst) Apply(i int) {
 			in.fail(in.sig("ban-ignored"), "the key was used successfully although its ban had been acknowledged")
 		} else if !acc && !in.banned {
 			in.fail(in.sig("unban-ignored"), "the key was refused although it is not banned (unban acknowledged or never banned)")
+		} else if in.banned {
+			in.respelled(in.client(), in.sig("ban-ignored:respelled-key"))
 		}
 	case "restart":
 		if in.cl != nil {
@@ -276,6 +302,8 @@ func (in *inst) Apply(i int) {
 			in.fail(in.sigB2("not-effective-on-peer:ban"), "second broker accepts the key although it merged the gossip carrying the ban")
 		} else if !acc && !in.b2banned {
 			in.fail(in.sigB2("not-effective-on-peer:unban"), "second broker refuses the key although the last gossip it merged says it is not banned")
+		} else if in.b2banned {
+			in.respelled(in.client2(), in.sigB2("not-effective-on-peer:respelled-key"))
 		}
 	case "sync":
 		for _, p := range in.cap.payloads {
@@ -283,6 +311,16 @@ func (in *inst) Apply(i int) {
 				if _, err := in.b2.Svc.VerifCluster().OnGossipBroadcast(mesh.PeerName(1), buf); err != nil {
 					in.fail("harness:gossip-rejected", err.Error())
 				}
+			}
+		}
+		in.cap.payloads = nil
+		in.b2banned = in.banned
+	case "syncfull":
+		// the periodic exchange: the first broker's complete state in one payload; broadcasts captured so far
+		// are dropped (a link that only carries periodic gossip, e.g. after a partition)
+		for _, buf := range in.b1.Svc.VerifCluster().Gossip().Encode() {
+			if _, err := in.b2.Svc.VerifCluster().OnGossip(buf); err != nil {
+				in.fail("harness:gossip-rejected", err.Error())
 			}
 		}
 		in.cap.payloads = nil
@@ -313,7 +351,7 @@ func (in *inst) sig(kind string) string {
 	}
 	var h []string
 	for _, o := range in.hist {
-		if o != "useB2" && o != "sync" {
+		if o != "useB2" && o != "sync" && o != "syncfull" {
 			h = append(h, o)
 		}
 	}
@@ -346,6 +384,8 @@ func alphabetOf(name string) []string {
 		return restartAlphabet
 	case "peer":
 		return peerAlphabet
+	case "peerfull":
+		return peerFullAlphabet
 	}
 	return fullAlphabet
 }
@@ -516,11 +556,13 @@ func run(c *core.Ctx) {
 		search(c, "toggle", toggleAlphabet, 6)
 		search(c, "restart", restartAlphabet, 4)
 		search(c, "peer", peerAlphabet, 6)
+		search(c, "peerfull", peerFullAlphabet, 6)
 		search(c, "full", fullAlphabet, 3)
 	} else {
 		search(c, "toggle", toggleAlphabet, 8)
 		search(c, "restart", restartAlphabet, 6)
 		search(c, "peer", peerAlphabet, 8)
+		search(c, "peerfull", peerFullAlphabet, 8)
 		search(c, "full", fullAlphabet, 5)
 	}
 	c.Add("states", c.Count("kill_cases"))
@@ -542,16 +584,7 @@ func replay(c *core.Ctx, raw json.RawMessage) {
 		Ops      []int  `json:"ops"`
 	}
 	json.Unmarshal(raw, &cs)
-	ops := fullAlphabet
-	if cs.Alphabet == "toggle" {
-		ops = toggleAlphabet
-	}
-	if cs.Alphabet == "restart" {
-		ops = restartAlphabet
-	}
-	if cs.Alphabet == "peer" {
-		ops = peerAlphabet
-	}
+	ops := alphabetOf(cs.Alphabet)
 	w := newWenv()
 	defer w.close()
 	in := newInst(w, ops)
